@@ -222,3 +222,263 @@ theorem written_segment_single_byte_corruption {δ : Type} (strict : Bool) (de :
 
 end C14
 end RedisVerif
+
+/-!
+## checkpoints
+
+The same for a written checkpoint image, at every position except the 4-byte data-length field
+(48..52: a changed length moves the footer, so the footer checksum is computed over other bytes —
+a string the linearity argument says nothing about; `checkpoint_truncation_detected` and the
+footer-checksum hypothesis of `checkpoint_corruption_detected` cover it).
+-/
+namespace RedisVerif
+namespace C14
+
+open Wal Codec Driver Concrete WalBytes
+
+/-- the parts of `hdr ++ (len4 ++ (payload ++ foot))` -/
+theorem chk_parts0 (hdr len4 payload foot : Bytes) (hh : hdr.length = 48) (hl : len4.length = 4) (hf : foot.length = 16) :
+    let data := hdr ++ (len4 ++ (payload ++ foot))
+    data.length = 68 + payload.length ∧ data.take 48 = hdr ∧
+    (data.drop 48).take 4 = len4 ∧ (data.drop 52).take payload.length = payload ∧
+    (data.drop (52 + payload.length)).take 16 = foot := by
+  have h := chk_parts hdr len4 payload foot [] hh hl hf
+  simp only [List.append_nil, List.length_nil, Nat.add_zero] at h
+  exact h
+
+theorem chkFits_of_bytes (k t l : Nat) (payload : Bytes) (hl : payload.length < 2 ^ 32) (hb : ∀ x ∈ payload, x < 256) :
+    ChkFits crc32 k t l payload := chkFits_crc32 k t l payload hl (allBytes_of_bytes hb)
+
+/-- one byte of the payload replaced: the data checksum notices -/
+theorem checkpoint_payload_byte {σ : Type} (de : Bytes → Option σ) (hdr payload : Bytes) (i v : Nat)
+    (hh : hdr.length = 48) (hl : payload.length < 2 ^ 32) (hb : ∀ x ∈ payload, x < 256) (hi : i < payload.length)
+    (hv : v < 256) (hne : payload[i]'hi ≠ v) :
+    IsErr (readCheckpoint crc32 de (hdr ++ (le 4 payload.length ++ (payload.set i v ++ chkFooter crc32 payload)))) := by
+  obtain ⟨_, _, p3, p4, p5⟩ := chk_parts0 hdr (le 4 payload.length) (payload.set i v) (chkFooter crc32 payload) hh
+    (le_length _ _) (chkFooter_length _ _)
+  rw [List.length_set] at p4 p5
+  apply chk_err_of_data_crc
+  simp only
+  rw [p3, leVal_le 4 _ (by simpa using hl), p4, p5, (chkFooter_fields crc32 payload).2.2.1,
+    leVal_le 4 _ (by simpa using Crc.crc32_lt payload hb)]
+  exact Crc.crc32_detects_set payload i v hi hb hv hne
+
+/-- one byte of the 16-byte footer replaced: the footer checksum notices -/
+theorem checkpoint_footer_byte {σ : Type} (de : Bytes → Option σ) (hdr payload : Bytes) (i v : Nat)
+    (hh : hdr.length = 48) (hl : payload.length < 2 ^ 32) (hb : ∀ x ∈ payload, x < 256) (hi : i < 16) (hv : v < 256)
+    (hchg : (chkFooter crc32 payload).set i v ≠ chkFooter crc32 payload) :
+    IsErr (readCheckpoint crc32 de (hdr ++ (le 4 payload.length ++ (payload ++ (chkFooter crc32 payload).set i v)))) := by
+  obtain ⟨_, _, p3, _, p5⟩ := chk_parts0 hdr (le 4 payload.length) payload ((chkFooter crc32 payload).set i v) hh
+    (le_length _ _) (by rw [List.length_set, chkFooter_length])
+  apply chk_err_of_footer_crc
+  simp only
+  rw [p3, leVal_le 4 _ (by simpa using hl), p5]
+  -- footer = X ++ Y, X = data crc ‖ data size (12 bytes), Y = le 4 (crc32 X)
+  have hX : (le 4 (crc32 payload) ++ le 8 payload.length).length = 12 := by simp [le_length]
+  have hXb : ∀ x ∈ le 4 (crc32 payload) ++ le 8 payload.length, x < 256 :=
+    bytes_of_allBytes (by rw [Bincode.allBytes_append, Bincode.allBytes_le, Bincode.allBytes_le]; rfl)
+  have hXc : crc32 (le 4 (crc32 payload) ++ le 8 payload.length) < 2 ^ 32 := Crc.crc32_lt _ hXb
+  have hF : chkFooter crc32 payload = (le 4 (crc32 payload) ++ le 8 payload.length)
+      ++ le 4 (crc32 (le 4 (crc32 payload) ++ le 8 payload.length)) := rfl
+  by_cases h12 : i < 12
+  · have hset : (chkFooter crc32 payload).set i v = (le 4 (crc32 payload) ++ le 8 payload.length).set i v
+        ++ le 4 (crc32 (le 4 (crc32 payload) ++ le 8 payload.length)) := by
+      rw [hF, set_append_left _ _ _ _ (by rw [hX]; exact h12)]
+    have hXne : (le 4 (crc32 payload) ++ le 8 payload.length).set i v ≠ le 4 (crc32 payload) ++ le 8 payload.length := by
+      intro h; apply hchg; rw [hset, h, ← hF]
+    have hl' : ((le 4 (crc32 payload) ++ le 8 payload.length).set i v).length = 12 := by rw [List.length_set, hX]
+    rw [hset, List.take_left' hl', List.drop_left' hl', List.take_of_length_le (by rw [le_length]; exact Nat.le_refl 4),
+      leVal_le 4 _ (by simpa using hXc)]
+    exact Crc.crc32_detects_set _ i v (by rw [hX]; exact h12) hXb hv
+      (getElem_ne_of_set_ne _ i v (by rw [hX]; exact h12) hXne)
+  · obtain ⟨j, rfl⟩ : ∃ j, i = 12 + j := ⟨i - 12, by omega⟩
+    have hj : j < 4 := by omega
+    have h := set_append_right (le 4 (crc32 payload) ++ le 8 payload.length)
+      (le 4 (crc32 (le 4 (crc32 payload) ++ le 8 payload.length))) j v
+    rw [hX] at h
+    have hYne : (le 4 (crc32 (le 4 (crc32 payload) ++ le 8 payload.length))).set j v
+        ≠ le 4 (crc32 (le 4 (crc32 payload) ++ le 8 payload.length)) := by
+      intro h'; apply hchg; rw [hF, h, h']
+    rw [hF, h, List.take_left' hX, List.drop_left' hX,
+      List.take_of_length_le (by rw [List.length_set, le_length]; exact Nat.le_refl 4)]
+    exact fun e => leVal_set_ne _ j v hXc hj hv hYne e.symm
+
+/-- one byte of the 48-byte header replaced -/
+theorem checkpoint_header_byte {σ : Type} (de : Bytes → Option σ) (k t l : Nat) (payload : Bytes) (i v : Nat)
+    (hl : payload.length < 2 ^ 32) (hb : ∀ x ∈ payload, x < 256) (hi : i < 48) (hv : v < 256) :
+    IsErr (readCheckpoint crc32 de ((chkHeader crc32 k t l).set i v ++ (le 4 payload.length ++ (payload ++ chkFooter crc32 payload)))) ∨
+      readCheckpoint crc32 de ((chkHeader crc32 k t l).set i v ++ (le 4 payload.length ++ (payload ++ chkFooter crc32 payload)))
+        = readCheckpoint crc32 de (writeCheckpoint crc32 k t l payload) := by
+  have hfit := chkFits_of_bytes k t l payload hl hb
+  have hcov : ∀ x ∈ chkCoveredA ++ chkCoveredB k t l, x < 256 := bytes_of_allBytes (allBytes_chkCovered k t l)
+  have hcc : crc32 (chkCoveredA ++ chkCoveredB k t l) < 2 ^ 32 := Crc.crc32_lt _ hcov
+  have hA : chkCoveredA.length = 6 := rfl
+  have hB : (chkCoveredB k t l).length = 24 := chkCoveredB_length k t l
+  -- the pristine image reads as `match de payload`
+  have hprist : readCheckpoint crc32 de (writeCheckpoint crc32 k t l payload)
+      = match de payload with | none => .error .ser | some s => .ok s := by
+    have := readCheckpoint_written crc32 de k t l payload [0, 0] (List.replicate 12 0) [] rfl (by simp) hfit
+    rw [← chkHeader_eq, List.append_nil] at this
+    exact this
+  -- any header with other padding / reserved bytes reads the same
+  have hG : ∀ pad res : Bytes, pad.length = 2 → res.length = 12 →
+      readCheckpoint crc32 de (chkHeaderG crc32 k t l pad res ++ (le 4 payload.length ++ (payload ++ chkFooter crc32 payload)))
+        = readCheckpoint crc32 de (writeCheckpoint crc32 k t l payload) := by
+    intro pad res hp hr
+    have := readCheckpoint_written crc32 de k t l payload pad res [] hp hr hfit
+    rw [List.append_nil] at this
+    rw [this, hprist]
+    cases de payload <;> rfl
+  have hH : chkHeader crc32 k t l = chkCoveredA ++ ([0, 0] ++ (chkCoveredB k t l ++ (List.replicate 12 0 ++
+      le 4 (crc32 (chkCoveredA ++ chkCoveredB k t l))))) := rfl
+  -- slices of a header given as A' ++ (pad ++ (B' ++ (res ++ C')))
+  have slices : ∀ (A' pad B' res C' rest : Bytes), A'.length = 6 → pad.length = 2 → B'.length = 24 → res.length = 12 → C'.length = 4 →
+      let d := (A' ++ (pad ++ (B' ++ (res ++ C')))) ++ rest
+      (d.take 48).take 6 ++ ((d.take 48).drop 8).take 24 = A' ++ B' ∧ ((d.take 48).drop 44).take 4 = C' := by
+    intro A' pad B' res C' rest h1 h2 h3 h4 h5 d
+    have hlen : (A' ++ (pad ++ (B' ++ (res ++ C')))).length = 48 := by simp [h1, h2, h3, h4, h5]
+    have e0 : d.take 48 = A' ++ (pad ++ (B' ++ (res ++ C'))) := List.take_left' hlen
+    rw [e0]
+    have e1 : (A' ++ (pad ++ (B' ++ (res ++ C')))).take 6 = A' := List.take_left' h1
+    have e2 : (A' ++ (pad ++ (B' ++ (res ++ C')))).drop 8 = B' ++ (res ++ C') := by
+      rw [← List.append_assoc]; exact List.drop_left' (by simp [h1, h2])
+    have e3 : (A' ++ (pad ++ (B' ++ (res ++ C')))).drop 44 = C' := by
+      have : A' ++ (pad ++ (B' ++ (res ++ C'))) = (A' ++ (pad ++ (B' ++ res))) ++ C' := by simp
+      rw [this]; exact List.drop_left' (by simp [h1, h2, h3, h4])
+    rw [e1, e2, e3, List.take_left' h3, List.take_of_length_le (by omega)]
+    exact ⟨rfl, rfl⟩
+  by_cases h6 : i < 6
+  · -- magic / version / flags: covered
+    have hset : (chkHeader crc32 k t l).set i v = chkCoveredA.set i v ++ ([0, 0] ++ (chkCoveredB k t l ++ (List.replicate 12 0 ++
+        le 4 (crc32 (chkCoveredA ++ chkCoveredB k t l))))) := by
+      rw [hH, set_append_left _ _ _ _ (by rw [hA]; exact h6)]
+    by_cases hsame : chkCoveredA.set i v = chkCoveredA
+    · right; rw [hset, hsame, ← hH]; rfl
+    · left
+      apply chk_err_of_header_crc
+      obtain ⟨s1, s2⟩ := slices (chkCoveredA.set i v) [0, 0] (chkCoveredB k t l) (List.replicate 12 0)
+        (le 4 (crc32 (chkCoveredA ++ chkCoveredB k t l))) (le 4 payload.length ++ (payload ++ chkFooter crc32 payload))
+        (by rw [List.length_set, hA]) rfl hB (by simp) (le_length _ _)
+      rw [hset, s1, s2, leVal_le 4 _ (by simpa using hcc), ← set_append_left _ _ _ _ (by rw [hA]; exact h6)]
+      exact Crc.crc32_detects_set _ i v (by rw [List.length_append, hA, hB]; omega) hcov hv
+        (by
+          apply getElem_ne_of_set_ne _ i v (by rw [List.length_append, hA, hB]; omega)
+          rw [set_append_left _ _ _ _ (by rw [hA]; exact h6)]
+          intro h; exact hsame (List.append_cancel_right h))
+  · by_cases h8 : i < 8
+    · -- padding
+      right
+      obtain ⟨j, rfl⟩ : ∃ j, i = 6 + j := ⟨i - 6, by omega⟩
+      have h := set_append_right chkCoveredA ([0, 0] ++ (chkCoveredB k t l ++ (List.replicate 12 0 ++
+        le 4 (crc32 (chkCoveredA ++ chkCoveredB k t l))))) j v
+      rw [hA] at h
+      rw [hH, h, set_append_left _ _ _ _ (by simp; omega)]
+      exact hG ([0, 0].set j v) (List.replicate 12 0) (by simp) (by simp)
+    · by_cases h32 : i < 32
+      · -- key count / timestamp / last segment id: covered
+        obtain ⟨j, rfl⟩ : ∃ j, i = 8 + j := ⟨i - 8, by omega⟩
+        have hj : j < 24 := by omega
+        have e : chkHeader crc32 k t l = (chkCoveredA ++ [0, 0]) ++ (chkCoveredB k t l ++ (List.replicate 12 0 ++
+            le 4 (crc32 (chkCoveredA ++ chkCoveredB k t l)))) := by rw [hH]; simp
+        have h := set_append_right (chkCoveredA ++ [0, 0]) (chkCoveredB k t l ++ (List.replicate 12 0 ++
+            le 4 (crc32 (chkCoveredA ++ chkCoveredB k t l)))) j v
+        have l8 : (chkCoveredA ++ [0, 0]).length = 8 := rfl
+        rw [l8] at h
+        have hset : (chkHeader crc32 k t l).set (8 + j) v = chkCoveredA ++ ([0, 0] ++ ((chkCoveredB k t l).set j v ++ (List.replicate 12 0 ++
+            le 4 (crc32 (chkCoveredA ++ chkCoveredB k t l))))) := by
+          rw [e, h, set_append_left _ _ _ _ (by rw [hB]; exact hj)]; simp
+        by_cases hsame : (chkCoveredB k t l).set j v = chkCoveredB k t l
+        · right; rw [hset, hsame, ← hH]; rfl
+        · left
+          apply chk_err_of_header_crc
+          obtain ⟨s1, s2⟩ := slices chkCoveredA [0, 0] ((chkCoveredB k t l).set j v) (List.replicate 12 0)
+            (le 4 (crc32 (chkCoveredA ++ chkCoveredB k t l))) (le 4 payload.length ++ (payload ++ chkFooter crc32 payload))
+            hA rfl (by rw [List.length_set, hB]) (by simp) (le_length _ _)
+          have hsr := set_append_right chkCoveredA (chkCoveredB k t l) j v
+          rw [hA] at hsr
+          rw [hset, s1, s2, leVal_le 4 _ (by simpa using hcc), ← hsr]
+          exact Crc.crc32_detects_set _ (6 + j) v (by rw [List.length_append, hA, hB]; omega) hcov hv
+            (by
+              apply getElem_ne_of_set_ne _ (6 + j) v (by rw [List.length_append, hA, hB]; omega)
+              rw [hsr]
+              intro h'; exact hsame (List.append_cancel_left h'))
+      · by_cases h44 : i < 44
+        · -- reserved
+          right
+          obtain ⟨j, rfl⟩ : ∃ j, i = 32 + j := ⟨i - 32, by omega⟩
+          have e : chkHeader crc32 k t l = (chkCoveredA ++ ([0, 0] ++ chkCoveredB k t l)) ++ (List.replicate 12 0 ++
+              le 4 (crc32 (chkCoveredA ++ chkCoveredB k t l))) := by rw [hH]; simp
+          have h := set_append_right (chkCoveredA ++ ([0, 0] ++ chkCoveredB k t l)) (List.replicate 12 0 ++
+              le 4 (crc32 (chkCoveredA ++ chkCoveredB k t l))) j v
+          have l32 : (chkCoveredA ++ ([0, 0] ++ chkCoveredB k t l)).length = 32 := by simp [hA, hB]
+          rw [l32] at h
+          rw [e, h, set_append_left _ _ _ _ (by simp; omega)]
+          have := hG [0, 0] ((List.replicate 12 0).set j v) rfl (by simp)
+          simp only [chkHeaderG, List.append_assoc] at this ⊢
+          exact this
+        · -- the stored header checksum
+          obtain ⟨j, rfl⟩ : ∃ j, i = 44 + j := ⟨i - 44, by omega⟩
+          have hj : j < 4 := by omega
+          have e : chkHeader crc32 k t l = (chkCoveredA ++ ([0, 0] ++ (chkCoveredB k t l ++ List.replicate 12 0))) ++
+              le 4 (crc32 (chkCoveredA ++ chkCoveredB k t l)) := by rw [hH]; simp
+          have h := set_append_right (chkCoveredA ++ ([0, 0] ++ (chkCoveredB k t l ++ List.replicate 12 0)))
+              (le 4 (crc32 (chkCoveredA ++ chkCoveredB k t l))) j v
+          have l44 : (chkCoveredA ++ ([0, 0] ++ (chkCoveredB k t l ++ List.replicate 12 0))).length = 44 := by simp [hA, hB]
+          rw [l44] at h
+          have hset : (chkHeader crc32 k t l).set (44 + j) v = chkCoveredA ++ ([0, 0] ++ (chkCoveredB k t l ++ (List.replicate 12 0 ++
+              (le 4 (crc32 (chkCoveredA ++ chkCoveredB k t l))).set j v))) := by
+            rw [e, h]; simp
+          by_cases hsame : (le 4 (crc32 (chkCoveredA ++ chkCoveredB k t l))).set j v = le 4 (crc32 (chkCoveredA ++ chkCoveredB k t l))
+          · right; rw [hset, hsame, ← hH]; rfl
+          · left
+            apply chk_err_of_header_crc
+            obtain ⟨s1, s2⟩ := slices chkCoveredA [0, 0] (chkCoveredB k t l) (List.replicate 12 0)
+              ((le 4 (crc32 (chkCoveredA ++ chkCoveredB k t l))).set j v) (le 4 payload.length ++ (payload ++ chkFooter crc32 payload))
+              hA rfl hB (by simp) (by rw [List.length_set, le_length])
+            rw [hset, s1, s2]
+            exact fun e' => leVal_set_ne _ j v hcc hj hv hsame e'.symm
+
+/-- MAIN: ONE byte of a written checkpoint image replaced by any value, at any position outside the
+    data-length field (48..52): the read is an error or returns exactly what the pristine image returns -/
+theorem checkpoint_single_byte_corruption {σ : Type} (de : Bytes → Option σ) (k t l : Nat) (payload : Bytes)
+    (p v : Nat) (hl : payload.length < 2 ^ 32) (hb : ∀ x ∈ payload, x < 256) (hv : v < 256)
+    (hp : p < (writeCheckpoint crc32 k t l payload).length) (hnl : p < 48 ∨ 52 ≤ p) :
+    IsErr (readCheckpoint crc32 de ((writeCheckpoint crc32 k t l payload).set p v)) ∨
+      readCheckpoint crc32 de ((writeCheckpoint crc32 k t l payload).set p v)
+        = readCheckpoint crc32 de (writeCheckpoint crc32 k t l payload) := by
+  have hh : (chkHeader crc32 k t l).length = 48 := by rw [chkHeader_eq]; exact chkHeader_length _ _ _ _ _ _ rfl (by simp)
+  have hlen : (writeCheckpoint crc32 k t l payload).length = 68 + payload.length := by
+    unfold writeCheckpoint
+    simp [hh, le_length, chkFooter_length]; omega
+  rw [hlen] at hp
+  unfold writeCheckpoint
+  by_cases h48 : p < 48
+  · rw [set_append_left _ _ _ _ (by rw [hh]; exact h48)]
+    exact checkpoint_header_byte de k t l payload p v hl hb h48 hv
+  · have h52 : 52 ≤ p := by rcases hnl with h | h; exact absurd h h48; exact h
+    by_cases hpay : p < 52 + payload.length
+    · obtain ⟨i, rfl⟩ : ∃ i, p = 48 + (4 + i) := ⟨p - 52, by omega⟩
+      have hi : i < payload.length := by omega
+      have h1 := set_append_right (chkHeader crc32 k t l) (le 4 payload.length ++ (payload ++ chkFooter crc32 payload)) (4 + i) v
+      have h2 := set_append_right (le 4 payload.length) (payload ++ chkFooter crc32 payload) i v
+      rw [hh] at h1
+      rw [le_length] at h2
+      rw [h1, h2, set_append_left _ _ _ _ hi]
+      by_cases hsame : payload.set i v = payload
+      · right; rw [hsame]
+      · left
+        exact checkpoint_payload_byte de _ payload i v hh hl hb hi hv (getElem_ne_of_set_ne payload i v hi hsame)
+    · obtain ⟨i, rfl⟩ : ∃ i, p = 48 + (4 + (payload.length + i)) := ⟨p - 52 - payload.length, by omega⟩
+      have hi : i < 16 := by omega
+      have h1 := set_append_right (chkHeader crc32 k t l) (le 4 payload.length ++ (payload ++ chkFooter crc32 payload)) (4 + (payload.length + i)) v
+      have h2 := set_append_right (le 4 payload.length) (payload ++ chkFooter crc32 payload) (payload.length + i) v
+      rw [hh] at h1
+      rw [le_length] at h2
+      rw [h1, h2, set_append_right]
+      by_cases hsame : (chkFooter crc32 payload).set i v = chkFooter crc32 payload
+      · right; rw [hsame]
+      · left
+        exact checkpoint_footer_byte de _ payload i v hh hl hb hi hv hsame
+
+end C14
+end RedisVerif
